@@ -76,8 +76,16 @@ func runC08(outDir string, seed int64, tier string) {
 		if ground(a) && ground(b) { // the relative order of distinct unbound variables is implementation dependent
 			ocases = append(ocases, fmt.Sprintf("(%d, %s, %s, %s)", id, a.coqT(), b.coqT(), coqZ(int64(ab))))
 		}
+		// the order of two distinct unbound variables depends on when each was created, which differs
+		// between renderings: the representation check applies when at most one variable is involved
+		nv := 0
+		for v := 0; v <= a.maxVar() || v <= b.maxVar(); v++ {
+			if a.hasVar(v) || b.hasVar(v) {
+				nv++
+			}
+		}
 		ab2, _, _ := cmp(g, a, b, false)
-		if ab2 != ab {
+		if ab2 != ab && nv <= 1 {
 			addFail("order:depends-on-representation", desc, fmt.Sprint(ab), fmt.Sprint(ab2, " (bracket notation)"))
 		}
 		if ground(a) && ground(b) && ground(c) {
